@@ -38,6 +38,7 @@ def relay_universe():
         E("r1", "A", 10000, 15, [["t", "b"]]),
         E("r2", "A", 10000, 25, [["t", "b"]]),
         E("n4", "B", 1, 31, [["t", "a"], ["t", "b"], ["p", "A"], ["p", "B"]]),     # the same tag name several times
+        E("dl", "B", 1, 33, [["delegation", "A"], ["t", "b"]]),                   # B posts for A (NIP-26): matches authors:[A]
         E("fx", "B", 1, 35, [["t", "a"]], mutate=_wrong_id),      # signed correctly, id field is not the hash
         E("fs", "A", 1, 36, [["t", "a"]], mutate=_bad_sig),
         # events on which add_event raises something other than a StorageError (a signature that is not hex; a correctly
@@ -58,6 +59,8 @@ def weird_events():
         E("w3", "A", 1, 34, [["t", "a"], ["n", "i1"], ["z", "i0"]]),
         E("w4", "B", 1, 35, [["t", "a"], ["n", "bT"], ["z", "bF"]]),
         E("w5", "A", 7, 36, [["t", "a"], ["n", "f1"], ["z", "f0"]]),
+        # representations a relay may be tempted to normalise: a bare d tag on a parameterised replaceable event, empty values
+        E("wd", "A", 30000, 39, [["d"], ["t", "a"]]), E("wv", "B", 1, 41, [["t", "a"], ["t", "e0"], ["e"], ["p"]]),
     ]
 
 
